@@ -1,5 +1,5 @@
 CONSTANTS
-  Types <- TypesQuick
+  Types <- TypesQuickFF
   MaxSet = 3
   FormsAll = FALSE
 SPECIFICATION FSpec
